@@ -4,7 +4,9 @@
 // every request to a controller that answers according to the generated
 // behaviour (ok / refuse / stall / malformed / wrong height) and fixes the
 // interleaving of the height goroutines (control.go).  One case = one task
-// with everything the peers and a fake blockchain module saw.
+// with everything the peers and a fake blockchain module saw.  A silent peer
+// (stall) is never answered: the downloader's 10 s stream deadline ends the
+// request.
 //
 // No hook file in /repo is used.
 package main
@@ -229,7 +231,12 @@ func genMulti(rng *hlib.Rng, kind string) *caseSpec {
 	randLat(rng, cs)
 	switch kind {
 	case "guarded-multi":
-		// nothing fails: every peer serves every height
+		// peers fail in every way (wrong heights included), but every height is served by
+		// somebody: no height fails in phase one, so nothing may go wrong at all
+		fillBeh(rng, cs, peers, 70, true)
+		for i := 0; i < nh; i++ {
+			cs.Beh[peers[rng.Intn(len(peers))]][i] = bOk
+		}
 	case "wrong":
 		fillBeh(rng, cs, peers, 50, true)
 	default:
@@ -267,25 +274,25 @@ func genAck(rng *hlib.Rng, i int) *caseSpec {
 	return cs
 }
 
-// the witnesses of the recorded findings, with all peers high enough (no sleeping)
+// the witnesses of the findings (three fixed in chain33, one open), with all peers high enough (no sleeping)
 func witnesses() []*caseSpec {
 	var out []*caseSpec
-	// aliasing: P0 refuses both heights, P1 serves both, P2 serves the first only.
-	// Goroutine of height 1 removes P0 and picks P1 (Index 0); goroutine of height 2 then
-	// removes index 0 of its longer view (= P1), keeps [P2,P2], asks P2 twice and gives up.
+	// aliasing (fixed by 203ed0e): P0 refuses both heights, P1 serves both, P2 serves the first only.
+	// With tasks.Remove the goroutine of height 1 removed P0 and picked P1 (Index 0); the goroutine of
+	// height 2 then removed index 0 of its longer view (= P1), kept [P2,P2], asked P2 twice and gave up.
 	a := newSpec("witness-alias", 2, 1)
 	a.Pids = []int{0, 1, 2}
 	a.Beh[0] = []int{bRefuse, bRefuse}
 	a.Beh[2] = []int{bOk, bRefuse}
 	a.Fixed = []int64{1, 2, 2, 2}
 	out = append(out, a)
-	// wrong height accepted
+	// wrong height (accepted before be3c9ca)
 	b := newSpec("witness-wrong", 1, 1)
 	b.Pids = []int{0, 1}
 	b.Beh[0] = []int{bWrong}
 	b.Wrong[0] = []int64{2}
 	out = append(out, b)
-	// second phase asks the failed peer again
+	// second phase asks the failed peer again (open finding)
 	c := newSpec("witness-again", 1, 1)
 	c.Pids = []int{0}
 	c.Beh[0] = []int{bRefuse}
@@ -296,7 +303,7 @@ func witnesses() []*caseSpec {
 // slow cases (own process each): sleeping goroutines and real timeouts
 func slowCases(rng *hlib.Rng, thorough bool) []*caseSpec {
 	var out []*caseSpec
-	// the model's witness cfg_lost: both goroutines end up with nobody to ask and sleep out their retries
+	// the model's example cfg_lost (the former aliasing witness): one goroutine ends up with nobody to ask and sleeps out its retries
 	a := newSpec("slow-lost", 2, 1)
 	a.Pids = []int{0, 1, 2}
 	a.Adv = []int64{1, 2, 0, 0, 0, 0}
@@ -305,7 +312,7 @@ func slowCases(rng *hlib.Rng, thorough bool) []*caseSpec {
 	a.Fixed = []int64{2, 1}
 	a.Budget = 70
 	out = append(out, a)
-	// the model's witness cfg_reask
+	// the model's example cfg_reask (the former aliasing witness)
 	b := newSpec("slow-reask", 2, 1)
 	b.Pids = []int{0, 1}
 	b.Adv = []int64{1, 2, 0, 0, 0, 0}
@@ -314,14 +321,14 @@ func slowCases(rng *hlib.Rng, thorough bool) []*caseSpec {
 	b.Fixed = []int64{1, 2}
 	b.Budget = 70
 	out = append(out, b)
-	// a silent peer in front of a healthy one
+	// a silent peer in front of a healthy one: the stream deadline (10 s) ends the request (85423f4)
 	c := newSpec("slow-stall", 1, 7)
 	c.Pids = []int{0, 1}
 	c.Lat = []int64{1, 2, 3, 4, 5, 6}
 	c.Beh[0] = []int{bStall}
 	c.Budget = 40
 	out = append(out, c)
-	// silent for one height only, the other goroutine carries on; and silent in phase two
+	// silent for one height only, the other goroutine carries on
 	c2 := newSpec("slow-stall", 2, 3)
 	c2.Pids = []int{0, 1}
 	c2.Lat = []int64{1, 2, 3, 4, 5, 6}
@@ -329,6 +336,21 @@ func slowCases(rng *hlib.Rng, thorough bool) []*caseSpec {
 	c2.Fixed = []int64{4, 3}
 	c2.Budget = 40
 	out = append(out, c2)
+	// the only peer is silent: the deadline ends the request in phase one, nobody is left, and
+	// checkTask asks the silent peer again (open finding 2) and waits for the deadline once more
+	c3 := newSpec("slow-stall", 1, 5)
+	c3.Pids = []int{0}
+	c3.Beh[0] = []int{bStall}
+	c3.Budget = 50
+	out = append(out, c3)
+	// a silent peer in front of a peer that is too low: after the deadline the goroutine sleeps out its retries
+	c4 := newSpec("slow-stall-sleep", 1, 5)
+	c4.Pids = []int{0, 1}
+	c4.Lat = []int64{1, 2, 3, 4, 5, 6}
+	c4.Adv = []int64{9, 3, 0, 0, 0, 0}
+	c4.Beh[0] = []int{bStall}
+	c4.Budget = 100
+	out = append(out, c4)
 	// nobody high enough: 50 looks, twice
 	d := newSpec("slow-low", 1, 9)
 	d.Pids = []int{0, 1}
